@@ -185,6 +185,7 @@ def run_check(chk, rng, replay, prop, modules, focus, n_quick, n_thorough, own_t
     stat = collections.Counter()
     status_hist = collections.Counter()
     own, foreign, structural, escaped, timeouts = [], [], [], [], []
+    harness_errors = []
     n_events = 0
     for s, v in verdicts:
         n_events += s.get("n_events", 0)
@@ -211,6 +212,7 @@ def run_check(chk, rng, replay, prop, modules, focus, n_quick, n_thorough, own_t
         else:
             stat["harness_error"] += 1
             chk.notes.append("harness error: " + v[1])
+            harness_errors.append(v[1])
     nontrivial = set()
     for s, v in verdicts:
         if v[0] == "ok" and (s["nfev"] > 1 or s["status"] in (-1, 2)):
@@ -275,4 +277,7 @@ def run_check(chk, rng, replay, prop, modules, focus, n_quick, n_thorough, own_t
         if broken and not (prop == "C08" and (escaped or timeouts)):
             chk.violation({"property": prop, "kind": "proof-or-correspondence-broken", "broken": broken,
                            "searched": f"{len(items)} recorded runs, none rejected for a clause of {prop}"}, no_input=True)
+    if harness_errors and not chk.violations:
+        # runs the recorder itself could not handle: no verdict is better than a silent pass
+        raise RuntimeError(f"{len(harness_errors)} of {len(items)} runs could not be recorded, first: {harness_errors[0]}")
     return verdicts
